@@ -48,6 +48,7 @@ enum {
   MC_OPT_SPIN_DEV, // 1: scheduling a spinner while others are enabled is offered as deviation
   MC_OPT_WM, // 1: weak-memory stale reads offered as deviations
   MC_OPT_FREE_SWITCH_COST, // cost of choosing a non-default thread when the running one blocked
+  MC_OPT_TRACK_POINTS, // 1 (default): the destructor of a lifetime-tracked object is a scheduling point
   MC_OPT_COUNT
 };
 
